@@ -975,11 +975,18 @@ func checkFilterSites(c *Ctx, tables map[string][]cbpf.Ins, tupleProgs [][]cbpf.
 				}
 			}
 		}
+		inForce := 0
+		// the sites: in the entry point or in the helpers of its package it was split into (socket set-up, capture opening)
 		var calls []*ssa.Call
-		for _, b := range f.Blocks {
-			for _, in := range b.Instrs {
-				if call, ok := in.(*ssa.Call); ok && call.Common().IsInvoke() && call.Common().Method.Name() == "SetPacketFilter" {
-					calls = append(calls, call)
+		for _, g := range ModReach(c.P, f) {
+			if core.FuncPkg(g) != core.FuncPkg(f) {
+				continue
+			}
+			for _, b := range g.Blocks {
+				for _, in := range b.Instrs {
+					if call, ok := in.(*ssa.Call); ok && call.Common().IsInvoke() && call.Common().Method.Name() == "SetPacketFilter" {
+						calls = append(calls, call)
+					}
 				}
 			}
 		}
@@ -988,7 +995,7 @@ func checkFilterSites(c *Ctx, tables map[string][]cbpf.Ins, tupleProgs [][]cbpf.
 			nsites++
 			key := fmt.Sprintf("%s#SetPacketFilter[%d]", e.fn, ci)
 			var spec *core.Term
-			for _, pa := range firstPath(f, call.Block()) {
+			for _, pa := range firstPath(call.Parent(), call.Block()) {
 				env := core.NewEnv(c.P, pa)
 				spec = env.Term(call.Common().Args[0])
 			}
@@ -1001,7 +1008,11 @@ func checkFilterSites(c *Ctx, tables map[string][]cbpf.Ins, tupleProgs [][]cbpf.
 				R.Fail("R12.4", key, call.Pos(), e.fn, "FilterType is not a constant: undecided")
 				continue
 			}
-			isLast := ci == len(calls)-1
+			// the SYN-ACK filter serves the handshake; every other filter is the one in force while the engine runs
+			isLast := ft != 4
+			if ft != 4 {
+				inForce++
+			}
 			var progs [][]cbpf.Ins
 			pname := ""
 			switch ft {
@@ -1051,6 +1062,7 @@ func checkFilterSites(c *Ctx, tables map[string][]cbpf.Ins, tupleProgs [][]cbpf.
 			R.Check(missed == "", "R12.4", key, call.Pos(), e.fn, fmt.Sprintf("%s accepts %s (%d representative frames over %v)", pname, what, nfr, keysOf(need)), fmt.Sprintf("%s hides a frame the matcher would turn into a hop: %s", pname, missed))
 			// role binding of Src / Dst
 			if ft == 3 || ft == 4 {
+				f := call.Parent()
 				cfgT := kvOf(spec, "FilterConfig")
 				src := core.ProjField(cfgT, "Src")
 				R.Check(isTargetTerm(src, e.driver), "R12.4", key+"/src", call.Pos(), e.fn, "Src = "+src.String()+" (the target endpoint)", "Src = "+src.String()+" is not the run's target endpoint")
@@ -1060,6 +1072,7 @@ func checkFilterSites(c *Ctx, tables map[string][]cbpf.Ins, tupleProgs [][]cbpf.
 				}
 			}
 		}
+		R.Check(inForce >= 1, "R12.4", e.fn+"#filter-in-force", f.Pos(), e.fn, "a matcher filter (not only the handshake SYN-ACK filter) is installed for the engine run", "no filter for the matcher's reply forms is installed: the capture would only ever see handshake SYN-ACKs (or everything)")
 	}
 	R.Floor("R12.4:SetPacketFilter-sites", nsites, 5)
 }
